@@ -295,7 +295,7 @@ func trunc(s string, n int) string {
 
 // q renders bytes for reports: printable, unambiguous.
 func q(s string) string {
-	if len(s) <= 240 {
+	if len(s) <= 240 || os.Getenv("VERIF_FULLQ") != "" {
 		return strconv.QuoteToASCII(s)
 	}
 	return strconv.QuoteToASCII(s[:120]) + fmt.Sprintf("...(%d bytes)...", len(s)) + strconv.QuoteToASCII(s[len(s)-80:])
